@@ -54,8 +54,9 @@ class Slice:
         R3 = mkstruct(f"{t}R3", {"n": X.Int64, "r": X.Ref[S1], "x": X.Float64[:], "y": X.Int32[:]})  # references and two dynamic fields
         S6 = mkstruct(f"{t}S6", {"n": X.Int64, "m": X.Float64[:, :], "v": X.Int32[:], "w": X.Int16[:1, :0]})  # N-d dynamic arrays not at offset 0
         self.S1, self.S2, self.S3, self.U, self.R1, self.S4, self.S5, self.S6 = S1, S2, S3, U, R1, S4, S5, S6
-        self.R2, self.R3 = R2, R3
-        self.roots = [S1, S2, S3, R1, S4, S5, S6, R2, R3]
+        R4 = mkstruct(f"{t}R4", {"tag": X.Int64, "top": X.Ref[R1], "z": X.Float64})  # a reference chain: R4.top -> R1 -> {S1, Float64[:], union member}
+        self.R2, self.R3, self.R4 = R2, R3, R4
+        self.roots = [S1, S2, S3, R1, S4, S5, S6, R2, R3, R4]
         self.arrays = [
             X.Float64[:, 3], X.Int16[2:1, 3:0], X.Int64[:, :, 2], S1[:], S2[:], S2[2], X.UInt8[5], X.Float32[:],
             X.String[:], X.Int32[None:1, None:2, None:0], X.Int8[2:2, 3:0, 2:1], X.Int8[:][:], X.Float32[:][2],
